@@ -249,6 +249,25 @@ def check_proofs(ctx, prop_files, extra_targets=()):
         "build_s": round(time.time() - t0, 1),
     }
     ctx.proof["cone"] = cone(prop_files)
+    if ok and ctx.tier == "thorough" and os.environ.get("BOBV_NO_COQCHK") != "1":
+        # independent re-check of the compiled cone and its axioms
+        mods = [modname(f) for f in prop_files]
+        try:
+            with coqc_slot():
+                r = subprocess.run(["coqchk", "-silent", "-o", "-Q", COQ, "BobV"] + mods, stdout=subprocess.PIPE,
+                                   stderr=subprocess.STDOUT, timeout=3000, text=True)
+            out = r.stdout
+            m = re.search(r"\* Axioms:(.*?)\n\s*\n\* Constants", out, re.S)
+            ax = m.group(1).strip() if m else "?"
+            ctx.proof["coqchk"] = {"rc": r.returncode, "axioms": ax,
+                                   "type_in_type": "type-in-type: <none>" in out, "positivity": "positivity is assumed: <none>" in out}
+            if r.returncode != 0 or ax != "<none>" or "type-in-type: <none>" not in out \
+                    or "unsafe (co)fixpoints: <none>" not in out or "positivity is assumed: <none>" not in out:
+                failed.append({"what": "coqchk", "log": out[-1500:]})
+                ctx.proof["ok"] = False
+            ctx.proof["checker_cmd"] += "  &&  coqchk -silent -o -Q /verif/coq BobV " + " ".join(mods)
+        except subprocess.TimeoutExpired:
+            ctx.proof["coqchk"] = {"rc": "timeout"}
     ctx.sample({"obligations": thms[:8]})
     return ctx.proof["ok"]
 
